@@ -74,6 +74,8 @@ def gen_comp(rng):
             ops.append(["assign", rng.choice([0, 1, 2, 2, -2])])
         elif r < 0.7:
             ops.append(["run"])
+        elif r < 0.74:
+            ops.append(["pull", rng.choice(["a", "b", "b"])])   # pull a child: the macro runs in part (upstream only)
         elif r < 0.78:
             ops.append(["clear"])
         elif r < 0.82:
@@ -257,6 +259,9 @@ def comp_trace(case, use_cache):
                 m.failed = False
                 for c in m:
                     c.failed = False
+            elif op[0] == "pull":
+                r = m.children[op[1]].pull()
+                out = ["val", _slot(r)]
             elif op[0] == "add":
                 extra += 1
                 m.add_child(nodes.Lin0(label=f"x{extra}", tag=50 + extra, k=1))
